@@ -232,7 +232,7 @@ proof fn lemma_merged_flags(a: u32, b: u32, hv: bool, he: bool, flags: u32)
 //@ loop 1
             invariant
                 b0 == log0.len(), out.limit@ == lim, lim <= b0 + 0xFFFF_FFFF, out.log@.len() <= lim,
-                file_part(out.log@, log0, b0, u(current_index)), out.log@.len() == b0 + 1 + u(current_index),
+                /*@C10*/ file_part(out.log@, log0, b0, u(current_index)), out.log@.len() == b0 + 1 + u(current_index),
                 /*@C10*/ out_offset == 48 * (1 + u(current_index)),
                 footer.file_info_offset == 48, file_lookup_data@.len() <= u(current_index),
                 footer.materialized_bytes <= 0xFFFF_FFFF * u(current_index), footer.stored_bytes == 0, footer.stored_bytes_on_disk == 0,
@@ -250,7 +250,7 @@ proof fn lemma_merged_flags(a: u32, b: u32, hv: bool, he: bool, flags: u32)
 //@ loop 2
                 invariant
                     b0 == log0.len(), out.limit@ == lim, lim <= b0 + 0xFFFF_FFFF, out.log@.len() <= lim,
-                    file_part(out.log@, log0, b0, u(current_index)), out.log@.len() == b0 + 1 + u(current_index),
+                    /*@C10*/ file_part(out.log@, log0, b0, u(current_index)), out.log@.len() == b0 + 1 + u(current_index),
                     /*@C10*/ out_offset == 48 * (1 + u(current_index)),
                     footer.file_info_offset == 48, file_lookup_data@.len() <= u(current_index),
                     footer.materialized_bytes <= 0xFFFF_FFFF * u(current_index), footer.stored_bytes == 0, footer.stored_bytes_on_disk == 0,
@@ -285,26 +285,26 @@ proof fn lemma_merged_flags(a: u32, b: u32, hv: bool, he: bool, flags: u32)
 //@ loop 3
                             invariant
                                 b0 == log0.len(), out.limit@ == lim, lim <= b0 + 0xFFFF_FFFF, out.log@.len() <= lim,
-                                file_part(out.log@, log0, b0, u(current_index) + 1 + vx_it1), out.log@.len() == b0 + 1 + u(current_index) + 1 + vx_it1,
+                                /*@C10*/ file_part(out.log@, log0, b0, u(current_index) + 1 + vx_it1), out.log@.len() == b0 + 1 + u(current_index) + 1 + vx_it1,
                                 footer.materialized_bytes <= 0xFFFF_FFFF * (u(current_index) + vx_it1), i < 2,
                                 footer.file_info_offset == 48, footer.stored_bytes == 0, footer.stored_bytes_on_disk == 0,
                                 rd_f(*r[0], fa0, ca0, file_data_header[0]), rd_f(*r[1], fa1, ca1, file_data_header[1]), out.chdrs@ == ch_init, out.fhdrs@ == fcur.push(*fh), r[0].fi@ == fi_0, r[1].fi@ == fi_1,
 //@ loop 4
                                 invariant
                                     b0 == log0.len(), out.limit@ == lim, lim <= b0 + 0xFFFF_FFFF, out.log@.len() <= lim,
-                                    file_part(out.log@, log0, b0, u(current_index) + 1 + fh.num_entries + vx_it2), out.log@.len() == b0 + 1 + u(current_index) + 1 + fh.num_entries + vx_it2, i < 2,
+                                    /*@C10*/ file_part(out.log@, log0, b0, u(current_index) + 1 + fh.num_entries + vx_it2), out.log@.len() == b0 + 1 + u(current_index) + 1 + fh.num_entries + vx_it2, i < 2,
                                     rd_f(*r[0], fa0, ca0, file_data_header[0]), rd_f(*r[1], fa1, ca1, file_data_header[1]), out.chdrs@ == ch_init, out.fhdrs@ == fcur.push(*fh), r[0].fi@ == fi_0, r[1].fi@ == fi_1,
 //@ loop 5
                             invariant
                                 b0 == log0.len(), out.limit@ == lim, lim <= b0 + 0xFFFF_FFFF, out.log@.len() <= lim,
-                                file_part(out.log@, log0, b0, u(current_index) + 1 + vx_it3), out.log@.len() == b0 + 1 + u(current_index) + 1 + vx_it3,
+                                /*@C10*/ file_part(out.log@, log0, b0, u(current_index) + 1 + vx_it3), out.log@.len() == b0 + 1 + u(current_index) + 1 + vx_it3,
                                 footer.materialized_bytes <= 0xFFFF_FFFF * (u(current_index) + vx_it3),
                                 footer.file_info_offset == 48, footer.stored_bytes == 0, footer.stored_bytes_on_disk == 0,
                                 rd_f(*r[0], fa0, ca0, file_data_header[0]), rd_f(*r[1], fa1, ca1, file_data_header[1]), out.chdrs@ == ch_init, out.fhdrs@ == fcur.push(header), r[0].fi@ == fi_0, r[1].fi@ == fi_1,
 //@ loop 6
                                 invariant
                                     b0 == log0.len(), out.limit@ == lim, lim <= b0 + 0xFFFF_FFFF, out.log@.len() <= lim,
-                                    file_part(out.log@, log0, b0, u(current_index) + 1 + fh0.num_entries + vx_it4), out.log@.len() == b0 + 1 + u(current_index) + 1 + fh0.num_entries + vx_it4,
+                                    /*@C10*/ file_part(out.log@, log0, b0, u(current_index) + 1 + fh0.num_entries + vx_it4), out.log@.len() == b0 + 1 + u(current_index) + 1 + fh0.num_entries + vx_it4,
                                     /*@C10*/ out_offset == 48 * (out.log@.len() - b0), read_idx < 2,
                                     rd_f(*r[0], fa0, ca0, file_data_header[0]), rd_f(*r[1], fa1, ca1, file_data_header[1]), out.chdrs@ == ch_init, out.fhdrs@ == fcur.push(header), r[0].fi@ == fi_0, r[1].fi@ == fi_1,
 //@ before `out_offset += header.serialize(out)? as u64;` #2
@@ -328,7 +328,7 @@ proof fn lemma_merged_flags(a: u32, b: u32, hv: bool, he: bool, flags: u32)
 //@ loop 7
             invariant
                 b0 == log0.len(), out.limit@ == lim, lim <= b0 + 0xFFFF_FFFF, out.log@.len() <= lim,
-                nf >= 1, file_part(out.log@, log0, b0, nf), cas_part(out.log@, b0 + 1 + nf, u(current_index)), out.log@.len() == b0 + 1 + nf + u(current_index),
+                /*@C10*/ nf >= 1, file_part(out.log@, log0, b0, nf), cas_part(out.log@, b0 + 1 + nf, u(current_index)), out.log@.len() == b0 + 1 + nf + u(current_index),
                 /*@C10*/ out_offset == 48 * (1 + nf + u(current_index)),
                 footer.file_info_offset == 48, footer.cas_info_offset == 48 * (1 + nf), file_lookup_data@.len() <= nf,
                 cas_lookup_data@.len() <= u(current_index), chunk_lookup_data@.len() <= u(current_index),
@@ -346,7 +346,7 @@ proof fn lemma_merged_flags(a: u32, b: u32, hv: bool, he: bool, flags: u32)
 //@ loop 8
                 invariant
                     b0 == log0.len(), out.limit@ == lim, lim <= b0 + 0xFFFF_FFFF, out.log@.len() <= lim,
-                    nf >= 1, file_part(out.log@, log0, b0, nf), cas_part(out.log@, b0 + 1 + nf, u(current_index)), out.log@.len() == b0 + 1 + nf + u(current_index),
+                    /*@C10*/ nf >= 1, file_part(out.log@, log0, b0, nf), cas_part(out.log@, b0 + 1 + nf, u(current_index)), out.log@.len() == b0 + 1 + nf + u(current_index),
                     /*@C10*/ out_offset == 48 * (1 + nf + u(current_index)),
                     footer.file_info_offset == 48, footer.cas_info_offset == 48 * (1 + nf), file_lookup_data@.len() <= nf,
                     cas_lookup_data@.len() <= u(current_index), chunk_lookup_data@.len() <= u(current_index),
@@ -376,7 +376,7 @@ proof fn lemma_merged_flags(a: u32, b: u32, hv: bool, he: bool, flags: u32)
 //@ loop 9
                             invariant
                                 b0 == log0.len(), out.limit@ == lim, lim <= b0 + 0xFFFF_FFFF, out.log@.len() <= lim,
-                                nf >= 1, file_part(out.log@, log0, b0, nf), cas_part(out.log@, b0 + 1 + nf, u(current_index) + 1 + j), out.log@.len() == b0 + 1 + nf + u(current_index) + 1 + j,
+                                /*@C10*/ nf >= 1, file_part(out.log@, log0, b0, nf), cas_part(out.log@, b0 + 1 + nf, u(current_index) + 1 + j), out.log@.len() == b0 + 1 + nf + u(current_index) + 1 + j,
                                 /*@C10*/ out_offset == 48 * (out.log@.len() - b0),
                                 chunk_lookup_data@.len() <= u(current_index) + j, i < 2,
                                 rd_c(*r[0], fa0, ca0, cas_data_header[0]), rd_c(*r[1], fa1, ca1, cas_data_header[1]), out.fhdrs@ =~= fh_init + merge_files(fa0, fa1, op), out.chdrs@ == gcur.push(*fh), r[0].ci@ == ci_0, r[1].ci@ == ci_1,
@@ -407,27 +407,27 @@ proof fn lemma_merged_flags(a: u32, b: u32, hv: bool, he: bool, flags: u32)
             invariant
                 out.fhdrs@ =~= fh_init + merge_files(fa0, fa1, op), out.chdrs@ =~= ch_init + merge_cas(ca0, ca1, op),
                 b0 == log0.len(), out.limit@ == lim, lim <= b0 + 0xFFFF_FFFF, out.log@.len() <= lim || vx_n1 == 0,
-                nf >= 1, nc >= 1, file_part(out.log@, log0, b0, nf), cas_part(out.log@, b0 + 1 + nf, nc), t1 == b0 + 1 + nf + nc,
-                vx_n1 <= vx_v1@.len() <= nf, pairs_part(out.log@, t1, vx_n1 as int), out.log@.len() == t1 + 2 * vx_n1,
+                /*@C10*/ nf >= 1, nc >= 1, file_part(out.log@, log0, b0, nf), cas_part(out.log@, b0 + 1 + nf, nc), t1 == b0 + 1 + nf + nc,
+                /*@C10*/ vx_n1 <= vx_v1@.len() <= nf, pairs_part(out.log@, t1, vx_n1 as int), out.log@.len() == t1 + 2 * vx_n1,
                 /*@C10*/ out_offset == 48 * (1 + nf + nc) + 12 * vx_v1@.len(),
             decreases vx_v1@.len() - vx_n1,
 //@ loop 11
             invariant
                 out.fhdrs@ =~= fh_init + merge_files(fa0, fa1, op), out.chdrs@ =~= ch_init + merge_cas(ca0, ca1, op),
                 b0 == log0.len(), out.limit@ == lim, lim <= b0 + 0xFFFF_FFFF, out.log@.len() <= lim || vx_n2 == 0,
-                nf >= 1, nc >= 1, file_part(out.log@, log0, b0, nf), cas_part(out.log@, b0 + 1 + nf, nc), t1 == b0 + 1 + nf + nc,
-                pairs_part(out.log@, t1, footer.file_lookup_num_entry as int), footer.file_lookup_num_entry <= nf,
-                vx_n2 <= vx_v2@.len() <= nc, pairs_part(out.log@, t1 + 2 * footer.file_lookup_num_entry, vx_n2 as int), out.log@.len() == t1 + 2 * footer.file_lookup_num_entry + 2 * vx_n2,
+                /*@C10*/ nf >= 1, nc >= 1, file_part(out.log@, log0, b0, nf), cas_part(out.log@, b0 + 1 + nf, nc), t1 == b0 + 1 + nf + nc,
+                /*@C10*/ pairs_part(out.log@, t1, footer.file_lookup_num_entry as int), footer.file_lookup_num_entry <= nf,
+                /*@C10*/ vx_n2 <= vx_v2@.len() <= nc, pairs_part(out.log@, t1 + 2 * footer.file_lookup_num_entry, vx_n2 as int), out.log@.len() == t1 + 2 * footer.file_lookup_num_entry + 2 * vx_n2,
                 /*@C10*/ out_offset == 48 * (1 + nf + nc) + 12 * footer.file_lookup_num_entry + 12 * vx_v2@.len(),
             decreases vx_v2@.len() - vx_n2,
 //@ loop 12
             invariant
                 out.fhdrs@ =~= fh_init + merge_files(fa0, fa1, op), out.chdrs@ =~= ch_init + merge_cas(ca0, ca1, op),
                 b0 == log0.len(), out.limit@ == lim, lim <= b0 + 0xFFFF_FFFF, out.log@.len() <= lim || vx_n3 == 0,
-                nf >= 1, nc >= 1, file_part(out.log@, log0, b0, nf), cas_part(out.log@, b0 + 1 + nf, nc), t1 == b0 + 1 + nf + nc,
-                pairs_part(out.log@, t1, footer.file_lookup_num_entry as int), footer.file_lookup_num_entry <= nf,
-                pairs_part(out.log@, t1 + 2 * footer.file_lookup_num_entry, footer.cas_lookup_num_entry as int), footer.cas_lookup_num_entry <= nc,
-                vx_n3 <= vx_v3@.len() <= nc, triples_part(out.log@, t1 + 2 * footer.file_lookup_num_entry + 2 * footer.cas_lookup_num_entry, vx_n3 as int),
+                /*@C10*/ nf >= 1, nc >= 1, file_part(out.log@, log0, b0, nf), cas_part(out.log@, b0 + 1 + nf, nc), t1 == b0 + 1 + nf + nc,
+                /*@C10*/ pairs_part(out.log@, t1, footer.file_lookup_num_entry as int), footer.file_lookup_num_entry <= nf,
+                /*@C10*/ pairs_part(out.log@, t1 + 2 * footer.file_lookup_num_entry, footer.cas_lookup_num_entry as int), footer.cas_lookup_num_entry <= nc,
+                /*@C10*/ vx_n3 <= vx_v3@.len() <= nc, triples_part(out.log@, t1 + 2 * footer.file_lookup_num_entry + 2 * footer.cas_lookup_num_entry, vx_n3 as int),
                 out.log@.len() == t1 + 2 * footer.file_lookup_num_entry + 2 * footer.cas_lookup_num_entry + 3 * vx_n3,
                 /*@C10*/ out_offset == 48 * (1 + nf + nc) + 12 * footer.file_lookup_num_entry + 12 * footer.cas_lookup_num_entry + 16 * vx_v3@.len(),
             decreases vx_v3@.len() - vx_n3,
